@@ -112,19 +112,10 @@ def isWs (c : UInt8) : Bool := c = 32 || (9 ≤ c && c ≤ 13)
 /-- `str::split_whitespace` for ASCII white space (Unicode white space is not modelled; the
 generators never emit it inside integrity strings). -/
 def splitWs (b : Bytes) : List Bytes :=
-  (b.foldr (fun c acc =>
-    if isWs c then [] :: acc
-    else match acc with
-      | [] => [[c]]
-      | l :: ls => (c :: l) :: ls) [[]]).filter (fun t => !t.isEmpty)
+  (Bytes.splitOn isWs b).filter (fun t => !t.isEmpty)
 
 /-- Split at '-' (0x2D). -/
-def splitDash (b : Bytes) : List Bytes :=
-  b.foldr (fun c acc =>
-    if c = 45 then [] :: acc
-    else match acc with
-      | [] => [[c]]
-      | l :: ls => (c :: l) :: ls) [[]]
+def splitDash (b : Bytes) : List Bytes := Bytes.splitOn (fun c => c == 45) b
 
 /-- `Hash::from_str`: algorithm before the first '-', digest between the first and second '-'
 (anything after a second '-' is ignored), digest text not validated. -/
